@@ -99,6 +99,11 @@ func (pr *playerRunner) UpdateTableState(table *pokertable.Table) error {
 			return nil
 		}
 
+		// The first game state may not have arrived yet
+		if gs == nil {
+			return nil
+		}
+
 		// Filtering private information fpr player
 		gs.AsPlayer(gamePlayerIdx)
 
